@@ -58,4 +58,49 @@ def ref_tb_equals(a, b, compare_dtype, skipna):
     return True
 
 
-REFS = dict(ref_tb_equals=ref_tb_equals, ref_slices_from_targets=ref_slices_from_targets)
+def ref_windows(n, size, step, window_sized, label_shift, start_shift, size_increment):
+    """reference enumeration of windows from the property statement: anchor j has left = start_shift + j*step and
+    size_j = size + j*size_increment; window = positions [max(left,0), max(left+size_j-1,-1)+1) that exist; label at left+size_j-1+label_shift"""
+    out = []
+    count_max = n if start_shift >= 0 else n + abs(start_shift)
+    left, sz, count = start_shift, size, 0
+    while True:
+        right = left + sz - 1
+        lo = min(max(left, 0), n)
+        hi = min(max(max(right, -1) + 1, lo), n)
+        lab = right + label_shift
+        if 0 <= lab < n and (not window_sized or hi - lo == sz):
+            out.append((lab, lo, hi))
+        left += step
+        sz += size_increment
+        count += 1
+        if count > count_max or left > count_max - 1 or sz < 0:
+            break
+    return out
+
+
+def observed_windows(yields, n):
+    """(label position, lo, hi) of each yielded (label, window Series) over a source whose labels are 100..100+n-1 and values 0..n-1"""
+    out = []
+    for label, w in yields:
+        vals = list(w.values.tolist())
+        lo = vals[0] if vals else None
+        out.append((label - 100, lo, (lo + len(vals)) if vals else None))
+    return out
+
+
+def windows_agree(obs, ref):
+    if len(obs) != len(ref):
+        return False
+    for (l1, lo1, hi1), (l2, lo2, hi2) in zip(obs, ref):
+        if l1 != l2:
+            return False
+        if lo1 is None:
+            if lo2 != hi2:
+                return False
+        elif (lo1, hi1) != (lo2, hi2):
+            return False
+    return True
+
+
+REFS = dict(ref_windows=ref_windows, observed_windows=observed_windows, windows_agree=windows_agree, ref_tb_equals=ref_tb_equals, ref_slices_from_targets=ref_slices_from_targets)
